@@ -21,8 +21,10 @@ CONSTANTS ChunkIds,     \* subset of {"a","b","n","t","o","s","f","r"}
           Acts          \* the action kinds enabled: subset of {"open","hwrite","hread","hclose","create","overwrite",
                         \*   "append","appendbad","appendmissing","read","readhdr"}
 
-VARIABLES hist
-vars == <<files, handles, res, hist>>
+VARIABLES hist,        \* the events taken so far (KeepHist), else one 0 per event
+          cat          \* cat[p]: the concatenation of the chunks of all accepted writes to p, in order, since the
+                       \* last event that replaced it - computed from the *calls* and their outcomes only
+vars == <<files, handles, res, hist, cat>>
 View == rsvars
 
 \* ---- the chunk catalogue: base "D" is the file's structure in most histories ------
@@ -42,13 +44,25 @@ NoChunk == [descr |-> NoDescr, rows |-> <<>>]
 
 \* `err` is the outcome the specification chose (the harness ignores it: it records the real one)
 Ev(o, h, p, m, dl, c, hd) == [op |-> o, h |-> h, p |-> p, mode |-> m, delim |-> dl, chunk |-> c, hdr |-> hd, err |-> "none"]
-\* export runs (KeepHist) do not generate what will not be printed: the step is disabled at MaxDepth.
-\* (The guard lives here and not in Next so that Next stays a plain disjunction of named actions,
-\* which is what TLC's per-action coverage - the vacuity guard - needs.)
-Log(e) == /\ KeepHist => Len(hist) < MaxDepth
-          /\ hist' = IF KeepHist THEN Append(hist, [e EXCEPT !.err = res'.err]) ELSE hist
+\* The depth bound is part of the state (Len(hist); without KeepHist the events are forgotten, their number is kept):
+\* a bound on TLCGet("level") would make the explored set depend on the workers' schedule once states merge.  The step
+\* is disabled at MaxDepth, here and not in Next, so that Next stays a plain disjunction of named actions, which is what
+\* TLC's per-action coverage - the vacuity guard - needs.
+\* a rejected open may have truncated the path (RecStore!Open): the history says so, for Fold
+Outcome == IF res'.err = "rejected" /\ files' # files THEN "rejected_truncated" ELSE res'.err
+\* what an event with outcome `out` does to the concatenation `prev` of its path
+CatStep(prev, e, out) ==
+    IF out \notin {"none", "rejected_truncated"} THEN prev
+    ELSE CASE out = "rejected_truncated"                   -> <<>>
+           [] e.op = "write"                              -> e.chunk.rows        \* a non-append write replaces
+           [] e.op = "open" /\ e.mode \in {"w", "w+"}     -> <<>>                \* a truncating open
+           [] e.op \in {"hwrite", "append"}               -> prev \o e.chunk.rows
+           [] OTHER                                       -> prev
+Log(e) == /\ Len(hist) < MaxDepth
+          /\ hist' = IF KeepHist THEN Append(hist, [e EXCEPT !.err = Outcome]) ELSE Append(hist, 0)
+          /\ cat' = [cat EXCEPT ![e.p] = CatStep(@, e, Outcome)]
 
-Init == RSInit /\ hist = <<>>
+Init == RSInit /\ hist = <<>> /\ cat = [p \in Paths |-> <<>>]
 
 \* arguments that cannot matter are not enumerated (delimiter / header of a write that is not the first)
 MOpen == "open" \in Acts /\ \E h \in Handles, p \in Paths, m \in Modes :
@@ -79,25 +93,28 @@ Next == \/ MOpen \/ MHWrite \/ MHRead \/ MHClose
 Spec == Init /\ [][Next]_vars
 
 \* ---- bounds ----------------------------------------------------------------------------
-Bounded == /\ TLCGet("level") <= MaxDepth + 1
+Bounded == /\ Len(hist) <= MaxDepth
            /\ \A p \in Paths : Len(files[p].rows) <= MaxRows
 BoundedHist == /\ Len(hist) <= MaxDepth
                /\ \A p \in Paths : Len(files[p].rows) <= MaxRows
 
 \* ---- theorems checked by TLC ----------------------------------------------------------
-\* "the file equals the concatenation of all writes", stated directly on the recorded history
-\* (needs KeepHist): the rows of p are the chunks of all accepted writes to p, in order, since the
-\* last event that replaced it (a non-append write or a truncating open).
+\* "the file equals the concatenation of all writes and the stored row count equals the total number of rows":
+\* the rows of p are the chunks of all accepted writes to p, in order, since the last event that replaced it
+\* (a non-append write or a truncating open) - on the running concatenation ...
+ConcatInv == \A p \in Paths : files[p].rows = cat[p] /\ files[p].size = Len(cat[p])
+\* ... and stated directly on the recorded history (needs KeepHist)
 RECURSIVE Fold(_, _)
 Fold(p, k) ==
     IF k = 0 THEN <<>>
     ELSE LET e == hist[k]  prev == Fold(p, k - 1) IN
-         IF e.p # p \/ e.err # "none" THEN prev
-         ELSE CASE e.op = "write"                          -> e.chunk.rows
+         IF e.p # p \/ e.err \notin {"none", "rejected_truncated"} THEN prev
+         ELSE CASE e.err = "rejected_truncated"            -> <<>>
+                [] e.op = "write"                          -> e.chunk.rows
                 [] e.op = "open" /\ e.mode \in {"w", "w+"} -> <<>>
                 [] e.op \in {"hwrite", "append"}           -> prev \o e.chunk.rows
                 [] OTHER                                   -> prev
-ConcatInv == KeepHist => \A p \in Paths : files[p].rows = Fold(p, Len(hist)) /\ files[p].size = Len(Fold(p, Len(hist)))
+ConcatHistInv == KeepHist => \A p \in Paths : files[p].rows = Fold(p, Len(hist)) /\ cat[p] = Fold(p, Len(hist))
 
 \* ---- export ------------------------------------------------------------------------------
 Export == (KeepHist /\ hist # <<>> /\ (ExportAt = 0 \/ Len(hist) = ExportAt)) => PrintT(<<"BEH", ToJson(hist)>>)
